@@ -102,8 +102,12 @@ def build(case):
     def cv(name, k):
         if case['norm'] == 'zscore':
             # z-score of a coupling variable declared with a Normal distribution (mean / deviation fixed by the declaration)
+            # (mean / deviation describe the TRUE range — they also weight the Leja nodes; only the domain guess is off. A
+            #  deviation taken from a far too narrow guess clusters all nodes in a fraction of the range that is then queried,
+            #  and extrapolation amplifies rounding beyond the 1e-7 budget: corrected false alarm of a thorough run.)
             g = guess(k)
-            return Variable(name, domain=g, distribution=f'N({(g[0] + g[1]) / 2}, {(g[1] - g[0]) / 6})', norm='zscore')
+            a_, b_ = float(lo[k]), float(hi[k])
+            return Variable(name, domain=g, distribution=f'N({(a_ + b_) / 2}, {max(b_ - a_, 1e-3) / 6})', norm='zscore')
         return Variable(name, domain=guess(k), norm=case['norm'])
     sg = lambda: SparseGrid(**SG)   # noqa: E731
     if topo == 'chain2':
